@@ -125,3 +125,53 @@ package collection
 //@   modifies smH[tw.timers], smV[tw.timers], positionEntry.item, positionEntry.pos,
 //@            timingEntry.removed, timingEntry.circle, timingEntry.diff, timingEntry.value, timingEntry.baseEntry, listOf
 //@   allocates
+
+// ---- the tick: scanAndRunTasks / onTick ----
+//@ ghost var fired map[*timingEntry]bool
+//@ spec liveOK(tw *TimingWheel) bool = forall(x.(*timingEntry), implies(inWheel(tw, x) && !x.removed, smHas(tw.timers, x.key) && pe(tw, x.key).item == x))
+//@ spec itemsOK(tw *TimingWheel) bool = forall(x.(*timingEntry), implies(inWheel(tw, x) && !x.removed, itemOK(tw, x)))
+
+//@ lemma modshift(p int, d int, n int)
+//@   property C12
+//@   hyp 0 <= p && p < n && 0 < d && d < n
+//@   goal (p+d)%n != p && 0 <= (p+d)%n && (p+d)%n < n && wait((p+d)%n, p, n) == d
+
+//@ func (tw *TimingWheel) runTasks
+//@   trusted
+//@   modifies nothing
+
+//@ func (tw *TimingWheel) scanAndRunTasks
+//@   property C12
+//@   requires wheelOK(tw) && timersOK(tw) && liveOK(tw) && itemsOK(tw)
+//@   requires l == tw.slots[tw.tickedPos]
+//@   ensures  wheelOK(tw) && timersOK(tw) && liveOK(tw) && itemsOK(tw)
+//@   ensures  forall(x.(*timingEntry), implies(old(listOf[x]) == l && old(x.removed), listOf[x] == nil))
+//@   ensures  forall(x.(*timingEntry), implies(old(listOf[x]) == l && !old(x.removed) && old(x.circle) > 0,
+//@              listOf[x] == l && x.circle == old(x.circle) - 1 && x.diff == old(x.diff) && !x.removed))
+//@   ensures  forall(x.(*timingEntry), implies(old(listOf[x]) == l && !old(x.removed) && old(x.circle) <= 0 && old(x.diff) > 0,
+//@              listOf[x] == tw.slots[(tw.tickedPos+old(x.diff))%tw.numSlots] && x.circle == old(x.circle) && x.diff == 0 && !x.removed))
+//@   ensures  forall(x.(*timingEntry), implies(old(listOf[x]) == l && !old(x.removed) && old(x.circle) <= 0 && old(x.diff) <= 0,
+//@              listOf[x] == nil && fired[x] && !smHas(tw.timers, x.key)))
+//@   ensures  forall(x.(*timingEntry), implies(old(allocated(x)) && old(listOf[x]) != l,
+//@              listOf[x] == old(listOf[x]) && x.removed == old(x.removed) && x.circle == old(x.circle) && x.diff == old(x.diff)))
+//@   ensures  forall(x.(*timingEntry), implies(fired[x] && !old(fired[x]), old(listOf[x]) == l && !old(x.removed) && old(x.circle) <= 0 && old(x.diff) <= 0))
+//@   modifies listOf, fired, timingEntry.circle, timingEntry.diff, positionEntry.item, positionEntry.pos, smH[tw.timers], smV[tw.timers]
+//@   allocates
+//@   call append#0: assert arg1.key == task.key && arg1.value == task.value
+//@   ghost at after append#0: fired[task] = true
+//@   ghost at before PushBack#0: lemma modshift(tw.tickedPos, task.diff, tw.numSlots)
+//@   loop 0: listiter(e, l)
+//@   loop 0: modifies listOf, fired, timingEntry.circle, timingEntry.diff, positionEntry.item, positionEntry.pos, smH[tw.timers], smV[tw.timers]
+//@   loop 0: invariant wheelOK(tw) && timersOK(tw) && liveOK(tw) && itemsOK(tw)
+//@   loop 0: invariant forall(x.(*timingEntry), implies(old(listOf[x]) == l && !seen[x], listOf[x] == l && x.removed == old(x.removed) && x.circle == old(x.circle) && x.diff == old(x.diff)))
+//@   loop 0: invariant forall(x.(*timingEntry), implies(seen[x] || listOf[x] == l, old(listOf[x]) == l))
+//@   loop 0: invariant forall(x.(*timingEntry), implies(seen[x] && old(x.removed), listOf[x] == nil))
+//@   loop 0: invariant forall(x.(*timingEntry), implies(seen[x] && !old(x.removed) && old(x.circle) > 0,
+//@              listOf[x] == l && x.circle == old(x.circle) - 1 && x.diff == old(x.diff) && !x.removed))
+//@   loop 0: invariant forall(x.(*timingEntry), implies(seen[x] && !old(x.removed) && old(x.circle) <= 0 && old(x.diff) > 0,
+//@              listOf[x] == tw.slots[(tw.tickedPos+old(x.diff))%tw.numSlots] && x.circle == old(x.circle) && x.diff == 0 && !x.removed))
+//@   loop 0: invariant forall(x.(*timingEntry), implies(seen[x] && !old(x.removed) && old(x.circle) <= 0 && old(x.diff) <= 0,
+//@              listOf[x] == nil && fired[x] && !smHas(tw.timers, x.key)))
+//@   loop 0: invariant forall(x.(*timingEntry), implies(old(allocated(x)) && old(listOf[x]) != l,
+//@              listOf[x] == old(listOf[x]) && x.removed == old(x.removed) && x.circle == old(x.circle) && x.diff == old(x.diff)))
+//@   loop 0: invariant forall(x.(*timingEntry), implies(fired[x] && !old(fired[x]), seen[x] && !old(x.removed) && old(x.circle) <= 0 && old(x.diff) <= 0))
